@@ -42,8 +42,8 @@ ASSUMPTIONS = [
     "runs hit by the recorded Anderson finding are excluded by using aa_depth = 0 here (C04 owns that finding)",
 ]
 FLOORS = {
-    "quick": {"one_object_both_directions": 40, "emd_series_equals_per_slice": 60, "identity_zero": 90, "swap_symmetric": 180, "scaling_linear": 250, "first_moment_bound": 650, "true_minimum_bound": 140, "thin_grid_unique_flux": 150, "frontend_equals_backend": 400, "emd": 300, "emd_object_reused_across_cases": 20, "options_dictionary_reused": 50},
-    "thorough": {"one_object_both_directions": 300, "emd_series_equals_per_slice": 600, "identity_zero": 450, "swap_symmetric": 1300, "scaling_linear": 1800, "first_moment_bound": 6000, "true_minimum_bound": 1100, "thin_grid_unique_flux": 2300, "frontend_equals_backend": 3000, "emd": 2000, "emd_object_reused_across_cases": 200, "options_dictionary_reused": 500},
+    "quick": {"weights_in_8bit_images": 25, "one_object_both_directions": 40, "emd_series_equals_per_slice": 60, "identity_zero": 90, "swap_symmetric": 180, "scaling_linear": 250, "first_moment_bound": 650, "true_minimum_bound": 140, "thin_grid_unique_flux": 150, "frontend_equals_backend": 400, "emd": 300, "emd_object_reused_across_cases": 20, "options_dictionary_reused": 50},
+    "thorough": {"weights_in_8bit_images": 200, "one_object_both_directions": 300, "emd_series_equals_per_slice": 600, "identity_zero": 450, "swap_symmetric": 1300, "scaling_linear": 1800, "first_moment_bound": 6000, "true_minimum_bound": 1100, "thin_grid_unique_flux": 2300, "frontend_equals_backend": 3000, "emd": 2000, "emd_object_reused_across_cases": 200, "options_dictionary_reused": 500},
 }
 SHARD_TIMEOUT = {"quick": 1500, "thorough": 6000}
 LAW_GRIDS = [(9,), (30,), (4, 5), (1, 12), (8, 8), (12, 10), (3, 3, 3), (4, 5, 6), (2, 1, 9), (17, 16)]
@@ -336,8 +336,13 @@ def run_shard(spec, R):
                 R.check(abs(scf[0] - cc * d0) <= tol * cc * sc, "scaling_linear", {**desc, "law": "mass x c with the penalty L unchanged (Bregman)", "scaled": scf[0], "c_times_base": cc * d0,
                                                                                    "relative_deviation": (scf[0] - cc * d0) / (cc * sc)},
                         key="C05:bregman_fixed_penalty_not_mass_equivariant_before_convergence", group=grp + "/fixed_L")
-        # constant cell weight
-        wimg = weight_image(shape, h, cw)
+        # constant cell weight (every fourth case: an integer weight held in an 8-bit image, as label-derived weights are)
+        if c["id"] % 4 == 1:
+            cw = float(int(rng.choice([2, 3, 16, 20, 40])))
+            wimg = darsia.Image(np.full(shape, int(cw), dtype=np.uint8), space_dim=len(shape), dimensions=[shape[d] * h[d] for d in range(len(shape))], scalar=True)
+            R.count("weights_in_8bit_images")
+        else:
+            wimg = weight_image(shape, h, cw)
         if method == "newton":
             ok, wd = R.guarded("solve", lambda: solve(method, (m1, m2), l1, mob, weight=wimg))
             if ok and not wd[1].get("vf_degenerate"):
